@@ -190,7 +190,7 @@ func oneCase(c *vk.Ctx, i int, r *rand.Rand, p *sem.Prepared, contextual []*open
 				lo := cs.s.ListObjects(drive.Req{Store: p.Store, Model: model, Object: it.rq.Object, Relation: it.rq.Relation, User: it.rq.User, Ctx: it.rq.Ctx, Contextual: it.ctxl})
 				c.Count("history_requests_listobjects", 1)
 				c.Case(fmt.Sprintf("lo|%s|n=%d|%s", ref.Shape(p.Ref.Rewrite(it.rq.Object, it.rq.Relation)), len(want), cs.name), len(want) > 0)
-				if lo.Err != nil || anyE {
+				if sem.Hung(c, cs.name, lo) || lo.Err != nil || anyE {
 					continue
 				}
 				got := append([]string{}, lo.Items...)
